@@ -28,6 +28,11 @@ Proof. exact normalize_keeps_hav. Qed.
 Theorem C15_normalize_idempotent : forall m k, normalize (normalize m k) 0 = normalize m k.
 Proof. exact normalize_idempotent. Qed.
 
+(* whatever value the float haversine rounds to (even above 1: antipodal pairs, repaired by a5ec9f5),
+   the metres DistanceFromHaversine returns never exceed half the circumference *)
+Theorem C15_metres_never_exceed_half_circumference : forall h, dist_from_hav h <= piR.
+Proof. exact dist_from_hav_le_piR. Qed.
+
 Print Assumptions C15_distance_range.
 Print Assumptions C15_metres_haversine_metres.
 Print Assumptions C15_normalize_keeps_haversine.
